@@ -59,7 +59,7 @@ func checkC08(r *Run) {
 		}
 		// "a partial or failed walk binds nothing … clunk and remove always unbind the fid, which may then be reused":
 		// a reservation left in the table after a failed operation keeps the fid number unusable
-		if v.rule == "own/placeholder-left" {
+		if v.rule == "own/placeholder-left" || v.rule == "own/nil-left-bound" {
 			r.Bad("table/reservation-left", v.key, v.pos, v.reason)
 		}
 	}
@@ -69,64 +69,7 @@ func checkC08(r *Run) {
 		lockPairingInto(r, tsL, fnsL, "fid-usable")
 	}
 
-	// (1) who may access the table, and how
-	nAcc := 0
-	for _, fn := range p.FuncsOfPkg("p9p") {
-		eachInstr(fn, func(in ssa.Instruction) {
-			c, ok := in.(ssa.CallInstruction)
-			if !ok {
-				return
-			}
-			com := c.Common()
-			n := calleeName(com)
-			if !strings.HasPrefix(n, "(*sync.Map).") || len(com.Args) == 0 || !isRefsTable(com.Args[0]) {
-				return
-			}
-			nAcc++
-			r.CallSites++
-			m := strings.TrimPrefix(n, "(*sync.Map).")
-			root := fn
-			for root.Parent() != nil {
-				root = root.Parent()
-			}
-			sum := ts.summary(root)
-			key := fmt.Sprintf("%s: refs.%s", fnName(fn), m)
-			switch m {
-			case "Load":
-				r.Check(sum.returnsLocked && sum.resultEnt == "B", "table/access", key+" only inside the locked getter", in.Pos(),
-					"the table is read outside a function that returns the fid locked and bound: the entry can change under the reader")
-			case "LoadOrStore":
-				r.Check(sum.returnsLocked && sum.resultEnt == "N", "table/access", key+" only inside the placeholder constructor", in.Pos(),
-					"fids are inserted outside the constructor that returns a locked placeholder")
-			case "LoadAndDelete":
-				r.Check(unbindsAndReleases(ts, root, 0), "table/access", key+" only inside the unbind-release helper", in.Pos(), "a fid is unbound without the release helper")
-				// (4) first call of the function
-				first := true
-				for _, b := range root.Blocks {
-					for _, x := range b.Instrs {
-						if x == in {
-							goto done
-						}
-						if cc, ok := x.(ssa.CallInstruction); ok && (b.Index != 0 || true) {
-							if _, isB := cc.Common().Value.(*ssa.Builtin); !isB && instrDominatesOrSame(x, in) {
-								first = false
-							}
-						}
-					}
-				}
-			done:
-				r.Check(first && in.Block().Index == 0, "table/unbind-first", fnName(fn)+": LoadAndDelete precedes every other call (clunk/remove always unbind)", in.Pos(),
-					"something that can fail or block runs before the fid is removed from the table: a failing clunk/remove leaves the fid bound")
-			case "Delete", "CompareAndDelete":
-				r.Ok("table/access", key+" of a fid held by the function (checked per path by table/delete-unheld)", in.Pos())
-			case "Range":
-				r.Check(root.Name() == "Stop", "table/access", key+" only in Stop", in.Pos(), "the table is iterated outside Stop")
-			default:
-				r.Bad("table/access", key, in.Pos(), "the fid table is written with "+m+": bypasses duplicate-fid detection / placeholder protocol")
-			}
-		})
-	}
-	r.Floor("table/access", nAcc, 8, "fid-table accesses")
+	c08TableAccess(r, p, ts)
 
 	// (1b) every Fid parameter of every Session method is resolved through the helpers
 	nParams := 0
@@ -187,6 +130,7 @@ func checkC08(r *Run) {
 
 	c08Constructors(r, ts, fns)
 	c08Walk(r, p)
+	isDirTestsTheBit(r, "isdir")
 	c08OpenOnce(r, p)
 	c08FileAfterSuccess(r, p)
 	c08ModeGate(r, p)
@@ -883,4 +827,122 @@ func c08FileAfterSuccess(r *Run, p *Prog) {
 		})
 	}
 	r.Floor("open-once", n, 1, "stores of an opened file into a fid")
+}
+
+// isDirTestsTheBit: IsDir reports the QTDIR *bit* of the entry's qid type — (Type & QTDIR) != 0 (or == QTDIR, > 0).
+// A comparison of the whole type byte misclassifies directories that carry further bits (QTAPPEND, QTEXCL, QTTMP…):
+// walks from them are refused, creates in them fail, and they are opened as plain files.
+func isDirTestsTheBit(r *Run, rule string) {
+	fn := r.P.Fn("p9p:IsDir")
+	if fn == nil {
+		r.Undecided(rule, "IsDir", token.NoPos, "anchor not found")
+		return
+	}
+	r.SawFn(fnName(fn))
+	const qtdir = 0x80
+	isMasked := func(v ssa.Value) bool {
+		b, ok := stripConv(v).(*ssa.BinOp)
+		if !ok || b.Op != token.AND {
+			return false
+		}
+		for _, pair := range [][2]ssa.Value{{b.X, b.Y}, {b.Y, b.X}} {
+			if c, ok := constInt(pair[1]); ok && c == qtdir {
+				if f, ok := pair[0].(*ssa.Field); ok && fieldNameV(f.X.Type(), f.Field) == "Type" {
+					return true
+				}
+				if isLoadOfField(pair[0], "Qid", "Type") {
+					return true
+				}
+			}
+		}
+		return false
+	}
+	n := 0
+	for _, ret := range returnsOf(fn) {
+		if len(ret.Results) != 1 {
+			continue
+		}
+		n++
+		ok := false
+		if b, isB := ret.Results[0].(*ssa.BinOp); isB {
+			for _, pair := range [][2]ssa.Value{{b.X, b.Y}, {b.Y, b.X}} {
+				if !isMasked(pair[0]) {
+					continue
+				}
+				c, isC := constInt(pair[1])
+				switch {
+				case isC && c == 0 && (b.Op == token.NEQ || (b.Op == token.GTR && pair[0] == b.X) || (b.Op == token.LSS && pair[0] == b.Y)):
+					ok = true
+				case isC && c == qtdir && b.Op == token.EQL:
+					ok = true
+				}
+			}
+		}
+		r.Check(ok, rule, "IsDir: tests the QTDIR bit of the qid type", ret.Pos(),
+			"IsDir does not test (Type & QTDIR): a directory whose qid type carries further bits is treated as a file (walks refused, creates fail, opened without a directory reader)")
+	}
+	r.Floor(rule, n, 1, "returns of IsDir")
+}
+
+// c08TableAccess: who may access the fid table, and how (shared with C14: looking a fid up and removing it from the
+// table in two steps lets two clunks of one fid both succeed, and the later one delete a newer binding).
+func c08TableAccess(r *Run, p *Prog, ts *TS) {
+	// (1) who may access the table, and how
+	nAcc := 0
+	for _, fn := range p.FuncsOfPkg("p9p") {
+		eachInstr(fn, func(in ssa.Instruction) {
+			c, ok := in.(ssa.CallInstruction)
+			if !ok {
+				return
+			}
+			com := c.Common()
+			n := calleeName(com)
+			if !strings.HasPrefix(n, "(*sync.Map).") || len(com.Args) == 0 || !isRefsTable(com.Args[0]) {
+				return
+			}
+			nAcc++
+			r.CallSites++
+			m := strings.TrimPrefix(n, "(*sync.Map).")
+			root := fn
+			for root.Parent() != nil {
+				root = root.Parent()
+			}
+			sum := ts.summary(root)
+			key := fmt.Sprintf("%s: refs.%s", fnName(fn), m)
+			switch m {
+			case "Load":
+				r.Check(sum.returnsLocked && sum.resultEnt == "B", "table/access", key+" only inside the locked getter", in.Pos(),
+					"the table is read outside a function that returns the fid locked and bound: the entry can change under the reader")
+			case "LoadOrStore":
+				r.Check(sum.returnsLocked && sum.resultEnt == "N", "table/access", key+" only inside the placeholder constructor", in.Pos(),
+					"fids are inserted outside the constructor that returns a locked placeholder")
+			case "LoadAndDelete":
+				r.Check(unbindsAndReleases(ts, root, 0), "table/access", key+" only inside the unbind-release helper", in.Pos(), "a fid is unbound without the release helper")
+				// (4) first call of the function
+				first := true
+				for _, b := range root.Blocks {
+					for _, x := range b.Instrs {
+						if x == in {
+							goto done
+						}
+						if cc, ok := x.(ssa.CallInstruction); ok && (b.Index != 0 || true) {
+							if _, isB := cc.Common().Value.(*ssa.Builtin); !isB && instrDominatesOrSame(x, in) {
+								first = false
+							}
+						}
+					}
+				}
+			done:
+				r.Check(first && in.Block().Index == 0, "table/unbind-first", fnName(fn)+": LoadAndDelete precedes every other call (clunk/remove always unbind)", in.Pos(),
+					"something that can fail or block runs before the fid is removed from the table: a failing clunk/remove leaves the fid bound")
+			case "Delete", "CompareAndDelete":
+				r.Ok("table/access", key+" of a fid held by the function (checked per path by table/delete-unheld)", in.Pos())
+			case "Range":
+				r.Check(root.Name() == "Stop", "table/access", key+" only in Stop", in.Pos(), "the table is iterated outside Stop")
+			default:
+				r.Bad("table/access", key, in.Pos(), "the fid table is written with "+m+": bypasses duplicate-fid detection / placeholder protocol")
+			}
+		})
+	}
+	r.Floor("table/access", nAcc, 8, "fid-table accesses")
 }
